@@ -778,6 +778,18 @@ func (fc *fctx) getForToken(cc *ssa.CallCommon, args []*Val, pos token.Pos) []*V
 	if inner == nil {
 		return nil
 	}
+	if pt, ok := t.Underlying().(*types.Pointer); ok {
+		// a pointer to a kind that is JSONPointable by value: jsonpointer answers a nil pointer with an error and
+		// otherwise hands the token to the kind's own JSONLookup (the real method, through its contract or inlined)
+		if est, _ := structOf(pt.Elem()); est != nil {
+			if m := tr.methodOf(pt.Elem(), "JSONLookup"); m != nil && len(m.Params) == 2 {
+				if _, recvIsPtr := m.Params[0].Type().Underlying().(*types.Pointer); !recvIsPtr {
+					return fc.getForTokenPointable(cc, inner, pt.Elem(), m, args, pos)
+				}
+			}
+		}
+		return nil
+	}
 	st, _ := structOf(t)
 	if st == nil {
 		return nil
@@ -820,5 +832,36 @@ func (fc *fctx) getForToken(cc *ssa.CallCommon, args []*Val, pos token.Pos) []*V
 	tr.assume(implies(any, eq(ifPart(errv, 0), "0")))
 	tr.assume(implies(not(any), and(eq(ifPart(r, 0), "0"), not(eq(ifPart(errv, 0), "0")), "(str.prefixof \"object has no field\" (errText "+errv.E()+"))")))
 	tr.trusted["jsonpointer.GetForToken on a struct value: swag name provider = JSON names of tagged exported fields (embedded structs walked); known name -> field value boxed (typed nil for nil pointers), unknown -> error \"object has no field ...\"; encoding the boxed value is encoding the field"] = true
+	return []*Val{r, kind, errv}
+}
+
+func (fc *fctx) getForTokenPointable(cc *ssa.CallCommon, inner ssa.Value, elem types.Type, m *ssa.Function, args []*Val, pos token.Pos) []*Val {
+	tr := fc.tr
+	tr.jsonDecls()
+	ptr := fc.val(inner)
+	nonnil := not(eq(ptr.E(), "0"))
+	saveReach := tr.reach
+	before := tr.cur.clone()
+	tr.reach = and(saveReach, nonnil)
+	recv := tr.load(tr.cur, ptr.E(), elem)
+	margs := []*Val{recv, args[1]}
+	var res []*Val
+	if c, ok := tr.contracts.Funcs[fnKey(m)]; ok && !tr.inlineAnyway[fnKey(m)] {
+		res = fc.callContractFn(c, m, margs, pos)
+	} else {
+		res = fc.inline(m, margs, nil, pos)
+	}
+	after := tr.cur
+	tr.reach = saveReach
+	tr.cur = tr.mergeStates([]string{nonnil, not(nonnil)}, []*State{after, before})
+	rs := cc.Signature().Results()
+	r := fc.freshVal("gftp_r", rs.At(0).Type())
+	kind := fc.freshVal("gftp_k", rs.At(1).Type())
+	errv := fc.freshVal("gftp_err", rs.At(2).Type())
+	if len(res) == 2 {
+		tr.assume(implies(nonnil, and(eq(r.E(), res[0].E()), eq(errv.E(), res[1].E()))))
+	}
+	tr.assume(implies(not(nonnil), and(eq(ifPart(r, 0), "0"), not(eq(ifPart(errv, 0), "0")))))
+	tr.trusted["jsonpointer.GetForToken on a pointer to a JSONPointable kind: a nil pointer is an error, otherwise the kind's own JSONLookup answers"] = true
 	return []*Val{r, kind, errv}
 }
